@@ -53,7 +53,8 @@ def plan(tier, seed):
                                   'weight': 2})
         units.append({'kind': 'hostile13', 'variants': HOSTILE13, 'rep': rep, 'weight': 4})
         units.append({'kind': 'hostile13-server', 'variants': HOSTILE13_SERVER, 'rep': rep, 'weight': 4})
-        units.append({'kind': 'hostile-tlcp', 'variants': HOSTILE_TLCP, 'rep': rep, 'weight': 4})
+        units.append({'kind': 'hostile-tlcp', 'proto': 'tlcp', 'variants': HOSTILE_TLCP, 'rep': rep, 'weight': 4})
+        units.append({'kind': 'hostile-tlcp', 'proto': 'tls12', 'variants': HOSTILE_TLCP, 'rep': rep, 'weight': 4})
     return units
 
 
@@ -563,27 +564,29 @@ HOSTILE_TLCP = ['honest', 'no-certificate-verify', 'certificate-verify-with-othe
 
 
 def u_hostile_tlcp(ctx, u):
-    """The verifier is the library's TLCP server with client-authentication trust anchors; the client is the Python peer."""
+    """The verifier is the library's TLCP (or TLS 1.2) server with client-authentication trust anchors; the client is the Python peer."""
     import socket
     import threading
     from .. import hostile_tlcp as HT
     rng = ctx.rng
+    pname = u.get('proto', 'tlcp')
+    P_ = T.PROTOS[pname]
     tag = 'c09ht-%d' % u['_i']
-    uu = {'proto': 'tlcp', 'role': 'server-verifies-client'}
+    uu = {'proto': pname, 'role': 'server-verifies-client'}
     creds, hooks, mutual = scenario(ctx, uu, None, tag)
     c_chain, c_priv, _ = build_chain(tag + '-c', None, leaf_cn='client')
     s_chain, s_priv, _ = build_chain(tag + '-s', None, leaf_cn='server')
     enc_priv = X.priv_from_seed(tag + '-s', 'leaf', 'enc')
     try:
-        srv_ctx, cli_ctx = T.pair_ctx(ctx, creds, T.TLCP, True)
+        srv_ctx, cli_ctx = T.pair_ctx(ctx, creds, P_, True)
     except AssertionError as e:
-        ctx.check(False, 'control:honest-scenario-failed:tlcp:server-verifies-client', error=str(e))
+        ctx.check(False, 'control:honest-scenario-failed:%s:server-verifies-client' % pname, error=str(e))
         return
     base = T.run_handshake(ctx, srv_ctx, cli_ctx, seed=rng.randrange(1, 1 << 30), use_proxy=True)
     ok = base['server'].ret == 1 and base['client'].ret == 1
     ch = [r for i, d, r in base['proxy'].records if d == 'c>s' and r[0] == T.REC_HANDSHAKE and r[5] == 1]
     T.close_pair(base)
-    if not ctx.check(ok and ch, 'control:honest-scenario-failed:tlcp:server-verifies-client', note='library client against library server'):
+    if not ctx.check(ok and ch, 'control:honest-scenario-failed:%s:server-verifies-client' % pname, note='library client against library server'):
         return
     f_chain, f_priv, _ = build_chain(tag + '-foreign', None, leaf_cn='client')
     other_priv = X.priv_from_seed(tag, 'attacker-key')
@@ -592,10 +595,10 @@ def u_hostile_tlcp(ctx, u):
         srv = T.Endpoint(ctx, srv_ctx, s_end, 's', rng.randrange(1, 1 << 30), False)
         th = threading.Thread(target=srv.handshake)
         th.start()
-        cl = HT.Client(c_end, ch[0], R.pub(enc_priv), rng)
+        cl = HT.Client(c_end, ch[0], R.pub(enc_priv), rng) if pname == 'tlcp' else HT.Client12(c_end, ch[0], rng)
         note = None
         try:
-            ctx.begin(['hostile-tlcp', variant])
+            ctx.begin(['hostile-' + pname, variant])
             if not cl.start():
                 note = 'server flight: ' + '; '.join(cl.log)
             elif not cl.certificate_requested():
@@ -639,7 +642,7 @@ def u_hostile_tlcp(ctx, u):
                     cl.send_plain(cl.certificate_verify(c_priv))
                     cl.send_plain(cl.client_key_exchange())
                 elif variant == 'server-certificate-as-client':
-                    cl.send_plain(HT.certificate_msg(s_chain[:1] + s_chain[2:]))
+                    cl.send_plain(HT.certificate_msg(s_chain[:1] + s_chain[2:] if pname == 'tlcp' else s_chain))
                     cl.send_plain(cl.client_key_exchange())
                     cl.send_plain(cl.certificate_verify(other_priv))
                 cl.change_cipher_spec()
@@ -654,9 +657,9 @@ def u_hostile_tlcp(ctx, u):
             except OSError:
                 pass
             th.join(10)
-        det = dict(proto='tlcp', role='server-verifies-client', variant=variant, note=note, server_messages=cl.server_msgs)
+        det = dict(proto=pname, role='server-verifies-client', variant=variant, note=note, server_messages=cl.server_msgs)
         if variant == 'honest':
-            ctx.check(srv.ret == 1 and note is None, 'control:python-peer-honest-handshake-failed:tlcp', server_ret=srv.ret, **det)
+            ctx.check(srv.ret == 1 and note is None, 'control:python-peer-honest-handshake-failed:' + pname, server_ret=srv.ret, **det)
             if srv.ret == 1:
                 got = {}
                 try:
@@ -677,14 +680,14 @@ def u_hostile_tlcp(ctx, u):
                         pass
                     t2.join(5)
                 r = got.get('r')
-                ctx.check(bool(r) and r[0] == 1 and r[1] == b'hostile tlcp application data', 'control:python-peer-application-data-not-delivered:tlcp',
+                ctx.check(bool(r) and r[0] == 1 and r[1] == b'hostile tlcp application data', 'control:python-peer-application-data-not-delivered:' + pname,
                           got=repr(r)[:80])
-            ctx.nontrivial('hostile-tlcp', 'honest', u.get('rep'))
+            ctx.nontrivial('hostile-' + pname, 'honest', u.get('rep'))
         else:
             if hung:
                 ctx.stat('hostile_tlcp_server_waited_until_close')
-            ctx.check(srv.ret != 1, 'auth-bypass:hostile-client:%s:tlcp:server-verifies-client' % variant, server_ret=srv.ret, **det)
-            ctx.nontrivial('hostile-tlcp', variant, u.get('rep'))
+            ctx.check(srv.ret != 1, 'auth-bypass:hostile-client:%s:%s:server-verifies-client' % (variant, pname), server_ret=srv.ret, **det)
+            ctx.nontrivial('hostile-' + pname, variant, u.get('rep'))
             ctx.stat('defect_cases')
             if note is None:
                 ctx.stat('hostile_tlcp_variants_delivered')
@@ -694,7 +697,7 @@ def u_hostile_tlcp(ctx, u):
             except OSError:
                 pass
         srv.conn.free()
-    ctx.sample({'kind': 'hostile-tlcp', 'variants': len(u['variants'])})
+    ctx.sample({'kind': 'hostile-' + pname, 'variants': len(u['variants'])})
     srv_ctx.free()
     cli_ctx.free()
 
